@@ -185,6 +185,17 @@ def opDType (ws : List String) : String :=
     | _, _, _ => "bad-op"
   | _ => "bad-op"
 
+/-- `f32 n1 n2 ...`: float32 rounding of integers (`-` where the model does not apply); `f32arg x m`: the crop-buffer log argument -/
+def opF32 (ws : List String) : String :=
+  match ints? ws with
+  | some ns => " ".intercalate (ns.map fun n => match f32int n with | some v => toString v | none => "-")
+  | none => "bad-op"
+
+def opF32Arg (ws : List String) : String :=
+  match ints? ws with
+  | some [x, m] => (match cropArgF32 x m with | some v => toString v | none => "-")
+  | _ => "bad-op"
+
 def opUsGeom (ws : List String) : String :=
   match ints? ws with
   | some [us] => s!"{Gen.us_region us} {Gen.us_dftshift (Gen.us_region us)}"
@@ -208,6 +219,8 @@ def step (line : String) : String :=
       | some [n] => s!"{Gen.us_corr_center n} {shiftSrc Gen.fast_corr_shift n 0} {shiftSrc Gen.full_corr_shift n 0}"
       | _ => "bad-op")
   | "dtype" :: ws => opDType ws
+  | "f32" :: ws => opF32 ws
+  | "f32arg" :: ws => opF32Arg ws
   | _ => "bad-op"
 
 def main : IO Unit := run step
